@@ -215,7 +215,7 @@ PROPS = {
                        "is the serialised list of registered blocks; every captured stack, instruction-pointer window and application region is such a block with "
                        "the requested address and the length read, and the image holds its captured bytes at the block's location. Theorems/System.lean states these for the request as one function (systemDump = dumpBytes ∘ gatherDump over the observed target state, the reader being the C17 model): System_stack and System_app say that the image records stacks and readable application regions with their addresses, lengths and the target's bytes, and lists them in the memory list.",
         "extra_modules": ["MdwModel.Theorems.System"],
-        "extra_theorems": ["System_stack", "System_app", "gatherApp_get"],
+        "extra_theorems": ["System_stack", "System_app", "gatherApp_get", "System_window"],
     },
     "C14": {
         "rule": "BuildId::read_from_module / SoName::read_from_module (slice mode, each under catch_unwind) on: random byte strings of 0 … 200 bytes; "
